@@ -26,7 +26,8 @@ type Config struct {
 	BlockedIsViolation bool
 	WitnessEvery       int
 	MaxWitnesses       int
-	Params             map[string]int // harness parameters (vParam)
+	Params             map[string]int  // harness parameters (vParam)
+	UFs                map[string]bool // functions summarised as uninterpreted functions
 }
 
 func DefaultConfig() *Config {
@@ -333,6 +334,10 @@ func (in *Interp) callSSA(caller *frame, fn *ssa.Function, args []Value, env []V
 	}
 	if depth > in.cfg.MaxDepth {
 		in.abort(abUnwind, fmt.Sprintf("call depth %d exceeded in %s", in.cfg.MaxDepth, fn))
+	}
+	if len(in.cfg.UFs) > 0 && in.cfg.UFs[fn.String()] {
+		in.stubsSeen["UF:"+fn.String()]++
+		return in.callUF(fn, args)
 	}
 	// intrinsics
 	if ix := in.lookupIntrinsic(fn); ix != nil {
@@ -832,4 +837,48 @@ func posString(fset *token.FileSet, p token.Pos) string {
 		s = s[i+1:]
 	}
 	return s
+}
+
+// callUF summarises a pure function of scalars and byte sequences as an
+// uninterpreted function of its argument terms.
+func (in *Interp) callUF(fn *ssa.Function, args []Value) Value {
+	var terms []*Term
+	shape := ""
+	for _, a := range args {
+		switch x := a.(type) {
+		case *Term:
+			terms = append(terms, x)
+			shape += fmt.Sprintf("_s%d", x.w)
+		case Str:
+			terms = append(terms, x.b...)
+			shape += fmt.Sprintf("_b%d", len(x.b))
+		case Slice:
+			var bs []*Term
+			if x.arr != nil {
+				bs = in.bytesOfSlice(x)
+			}
+			terms = append(terms, bs...)
+			shape += fmt.Sprintf("_b%d", len(bs))
+		default:
+			in.unsupported(fmt.Sprintf("UF summary of %s: argument %T", fn, a))
+		}
+	}
+	res := fn.Signature.Results()
+	if res.Len() != 1 {
+		in.unsupported("UF summary needs exactly one scalar result: " + fn.String())
+	}
+	w := typeWidth(res.At(0).Type())
+	if w < 0 {
+		in.unsupported("UF summary needs a scalar result: " + fn.String())
+	}
+	name := "uf_" + strings.Map(func(r rune) rune {
+		if (r >= 'a' && r <= 'z') || (r >= 'A' && r <= 'Z') || (r >= '0' && r <= '9') {
+			return r
+		}
+		return '_'
+	}, fn.String()) + shape
+	if len(terms) == 0 {
+		return in.tt.App(w, name)
+	}
+	return in.tt.App(w, name, terms...)
 }
